@@ -349,11 +349,11 @@ class C13(Check):
         from .invariance import AnalysisInvariance
         from . import designs as DS
         if not hasattr(self, 'pkit'): self.pkit = ProjectKit(self, log=self.log)
-        ds = [DS.MUT_DESIGN, DS.DESIGNS[4], DS.DESIGNS[3]]
         q = self.tier == 'quick'
-        ps.append(AnalysisInvariance('analysis: letter case of one identifier or keyword', ds, 'case', stride=6 if q else 1, offset=self.seed % 6 if q else 0,
+        ds = [DS.MUT_DESIGN, DS.DESIGNS[4]] + ([] if q else [DS.DESIGNS[3]])
+        ps.append(AnalysisInvariance('analysis: letter case of one identifier or keyword', ds, 'case', stride=12 if q else 1, offset=self.seed % 12 if q else 0,
                                      required=('compared', 'diagnostics present', 'quoted name re-spelled')))
-        ps.append(AnalysisInvariance('analysis: re-layout at one gap between tokens', ds, 'layout', stride=12 if q else 1, offset=self.seed % 12 if q else 0,
+        ps.append(AnalysisInvariance('analysis: re-layout at one gap between tokens', ds, 'layout', stride=24 if q else 1, offset=self.seed % 24 if q else 0,
                                      required=('compared', 'diagnostics present', 'line break inserted')))
         self._parts = ps
         return ps
